@@ -1,5 +1,7 @@
 """C14 — undeclared access never commits."""
 from ..prims import *
+from ..guards import tokens_of_atoms
+from ..engine import resolve_upvars
 from ..guards import find_guard, side_tokens
 
 EXPLANATION = (
@@ -155,6 +157,52 @@ def run(ctx):
                                 classes.add(cls)
                         inst = m["is_instance_op"].get("k", "?").replace("const ", "")
                         got_tbl[vname] = (classes, inst == "true")
+    if sws:
+        # mutation style (`let mut t = OpTargets { empty.. }; match op { V => { t.nodes.push(x); t.is_instance_op = true } }`):
+        # the per-arm facts are the pushes / field assignments inside the arm, on top of the defaults built before the match
+        bb, arms, ow, _ = sws[0]
+        og = owt.origins()
+
+        def agg_classes(st_):
+            m = dict(zip(st_[2]["fields"], st_[2]["os"]))
+            classes = set()
+            for cls in ("nodes", "edges", "attachments"):
+                ats = og.of_operand(m[cls], deep=True)
+                if not all(a.kind == "call" and a.key[0].endswith("Vec::<T>::new") for a in ats if a.kind == "call") or not any(a.kind == "call" for a in ats):
+                    classes.add(cls)
+            return classes, m["is_instance_op"].get("k", "?").replace("const ", "") == "true"
+        pre = owt.reachable([0], avoid_blocks=[bb]) | {bb}
+        default = None
+        for b in pre:
+            for st_ in owt.blocks[b]["st"]:
+                if st_[0] == "a" and st_[2]["r"] == "agg" and st_[2].get("adt") == FG + "OpTargets":
+                    default = agg_classes(st_)
+        if default is not None:
+            targets_ = list(arms.values())
+            for vname, tgt in arms.items():
+                if vname in got_tbl:
+                    continue
+                others = [x for x in set(targets_) if x != tgt]
+                reach = owt.reachable([tgt], avoid_blocks=others)
+                classes, inst = set(default[0]), default[1]
+                for b in reach:
+                    blk = owt.blocks[b]
+                    for st_ in blk["st"]:
+                        if st_[0] != "a":
+                            continue
+                        fs = [x for x in field_steps(st_[1]) if x[0] == FG + "OpTargets"]
+                        if fs:
+                            if fs[0][2] == "is_instance_op" and "k" in st_[2].get("o", {}):
+                                inst = st_[2]["o"]["k"].replace("const ", "") == "true"
+                            elif fs[0][2] in ("nodes", "edges", "attachments"):
+                                classes.add(fs[0][2])
+                    t_ = blk["t"]
+                    if t_["t"] == "call" and re.search(r"Vec(::)?<T, A>::(push|extend|extend_from_slice|insert)$|::extend$", owt.callee_of(t_) or "") and t_["args"]:
+                        for a in og.of_operand(t_["args"][0], deep=True):
+                            for stp in a.steps:
+                                if isinstance(stp, tuple) and stp[0] == FG + "OpTargets" and stp[2] in ("nodes", "edges", "attachments"):
+                                    classes.add(stp[2])
+                got_tbl[vname] = (classes, inst)
     for v, want in ATTR_TABLE.items():
         got = got_tbl.get(v)
         rep.check(got == want, "C14.R3", "attribution:%s" % v, "targets %s instance=%s" % (sorted(want[0]), want[1]),
@@ -291,6 +339,28 @@ def run(ctx):
     for b in at_:
         okk, why = result_inspected(ar, b)
         rep.check(okk, "C14.R5", "wiring:attach-result-propagated", why, "attach_footprint_guards result dropped", site=ar.loc())
+    # each item is guarded by ITS OWN footprint: the guard-metadata key identifies one rewrite.  Several rewrites may share a
+    # scope node in one tick (the scheduler dedupes on (scope, rule)), so a key made of the scope alone lets one rewrite run
+    # under another rule's footprint.  Both sides of the lookup must read the rewrite's origin (rule identity) and its scope.
+    afg = prog.fn("warp_core::engine_impl::attach_footprint_guards")
+    cgm = prog.fn("warp_core::engine_impl::collect_guard_metadata")
+    look = set()
+    for g in [afg] + [prog.fns[c] for c in prog.closures_in(afg.id)]:
+        for b in g.call_sites(r"BTreeMap.*::get$"):
+            ats = g.origins().of_operand(g.blocks[b]["t"]["args"][1], deep=True)
+            cur, h = ats, g
+            while h is not None and h.is_closure():
+                cur = resolve_upvars(h, cur, True)
+                h = prog.fns.get(h.rec.get("parent"))
+            look |= tokens_of_atoms(cur)
+    rep.check(bool({"f:origin", "f:rule_id"} & look) and "f:scope" in look, "C14.R5", "wiring:guard-key-identifies-the-rewrite:lookup",
+              "guard lookup key reads the item's origin and scope", "attach_footprint_guards looks a guard up by %s: rewrites sharing a scope node share one footprint guard" %
+              sorted(x for x in look if x.startswith("f:")), site=afg.loc())
+    built = set()
+    for g in [cgm] + [prog.fns[c] for c in prog.closures_in(cgm.id)]:
+        built |= tokens_of_atoms(g.origins().of_local(0, deep=True))
+    rep.check(bool({"f:origin", "f:rule_id"} & built) and "f:scope" in built and "f:footprint" in built, "C14.R5", "wiring:guard-key-identifies-the-rewrite:collect",
+              "guard metadata is keyed by (origin, scope) and carries the footprint", "collect_guard_metadata builds entries from %s only" % sorted(x for x in built if x.startswith("f:")), site=cgm.loc())
     want_sys = {prog.consts[k]["val"] for k in ("warp_core::inbox::DISPATCH_INBOX_RULE_NAME", "warp_core::inbox::ACK_PENDING_RULE_NAME") if k in prog.consts}
     sys_names = set()
     for c in [ar] + [prog.fns[x] for x in prog.closures_in(ar.id)]:
